@@ -20,7 +20,7 @@
     Status of each, see below. *)
 From Coq Require Import List NArith Bool.
 From XmlRs Require Import Base.CPred Model.Store Model.DomOps Proofs.DomTree Proofs.DomOpsInv
-  Proofs.DomL1NoPanic Proofs.DomL1Atomic Proofs.DomL1Abs Proofs.DomL1Refine Proofs.DomExample Proofs.DomC12.
+  Proofs.DomL1NoPanic Proofs.DomL1Atomic Proofs.DomL1Abs Proofs.DomL1Refine Proofs.DomL1RefineInsert Proofs.DomExample Proofs.DomC12.
 From XmlRs Require Spec.DomCharData Spec.DomL1.
 Import ListNotations.
 Open Scope N_scope.
@@ -37,20 +37,45 @@ Open Scope N_scope.
     to DOM codes ([InfoErr] -> [Refused]).
 
     PROVED RUNGS (every receiver, argument, offset, count and string; reachable worlds):
-    - [C13_step_refines_partial_data]: set_data, append_data, insert_data, delete_data,
-      replace_data -- unconditional;
-    - [C13_step_refines_partial_remove]: remove_child, outside the finding class C13-LEAF-RM
+    - rung "child lists":
+      [C13_step_refines_partial_append], [C13_step_refines_partial_insert]: append_child and
+      insert_before on every receiver with every argument (self, ancestors, descendants, detached
+      subtrees, foreign nodes, attributes, the reference child itself) -- the move of a node that is
+      already in the tree is "detach, then attach" -- outside the finding class C13-DOC-MOVE
+      ([KnownDocMove]: the Document refuses to move its own element / document type);
+      [C13_step_refines_partial_replace]: replace_child on every receiver that is not the Document;
+      [C13_step_refines_partial_remove]: remove_child, outside the finding class C13-LEAF-RM
       ([KnownLeafRm]: the receiver is a Text / Comment / CDATASection / PI; the code answers
-      HIERARCHY_REQUEST_ERR, Level 1 NOT_FOUND_ERR; pinned by test_text_node_mut_remove_child_err2);
-    - [C13_step_refines_partial_factories]: create_text_node, create_comment,
+      HIERARCHY_REQUEST_ERR, Level 1 NOT_FOUND_ERR; pinned by test_text_node_mut_remove_child_err2).
+      Where Level 1 is silent (insertBefore(x, x), replaceChild(x, x)) the statement is
+      [DomL1.conforms]: no panic, and the state is the unchanged one or the one the specification
+      offers.
+    - rung "character data" [C13_step_refines_partial_data]: set_data, append_data, insert_data,
+      delete_data, replace_data -- unconditional;
+    - rung "text factories" [C13_step_refines_partial_factories]: create_text_node, create_comment,
       create_cdata_section, create_document_fragment, outside D42 ([Known42]).
-    NOT PROVED: append_child / insert_before / replace_child (refuted on the Document cardinality
-    rule: finding C13-DOC-MOVE; otherwise they need the equivalence of the two ancestor walks),
-    the attribute calls, split_text, the PI calls and the factories that take names (they need
-    the agreement of the implementation's parser facts with the grammar of the specification).
-    Those are compared with the extracted [dom_step] on the implementation, call by call, by
-    checks/C13.py (the matrix of receiver kind x argument kind x position for every mutator and
-    random histories). *)
+    NOT PROVED: replace_child on the Document, the attribute calls, split_text, the PI calls and
+    the factories that take names (the last three groups need the agreement of the
+    implementation's parser facts with the grammar of the specification).  Those are compared with
+    the extracted [dom_step] on the implementation, call by call, by checks/C13.py (the matrix of
+    receiver kind x argument kind x position for every mutator and random histories). *)
+Theorem C13_step_refines_partial_append : forall w r n,
+  WInv w -> KnownDocMove w r n = false ->
+  DomL1.conforms (abs w) (DomL1.AAppendChild r n) (abs (fst (step w (AppendChild r n)))) (outcome_class (snd (step w (AppendChild r n)))).
+Proof. exact step_refines_partial_append. Qed.
+
+Theorem C13_step_refines_partial_insert : forall w r n f,
+  WInv w -> KnownDocMove w r n = false ->
+  DomL1.conforms (abs w) (DomL1.AInsertBefore r n f) (abs (fst (step w (InsertBefore r n f))))
+                 (outcome_class (snd (step w (InsertBefore r n f)))).
+Proof. exact step_refines_partial_insert. Qed.
+
+Theorem C13_step_refines_partial_replace : forall w (r n o : nref),
+  WInv w -> receiver_is_document w r = false ->
+  DomL1.conforms (abs w) (DomL1.AReplaceChild r n o) (abs (fst (step w (ReplaceChild r n o))))
+                 (outcome_class (snd (step w (ReplaceChild r n o)))).
+Proof. exact step_refines_partial_replace. Qed.
+
 Theorem C13_step_refines_partial_data : forall w o ao,
   WInv w -> is_data_op o = true -> abs_op o = Some ao -> refines_on w o ao.
 Proof. exact step_refines_partial_data. Qed.
@@ -115,6 +140,9 @@ Example C13_example :
   /\ fst (step ex_world (ReplaceData (0, 6) 0 1 (dinf [93; 93; 62]))) = ex_world
   /\ snd (step ex_world (InsertData (0, 6) 1 (dinf [117]))) = Ok RUnit
   /\ option_map (fun s => data_of s 6) (doc_at (fst (step ex_world (InsertData (0, 6) 1 (dinf [117])))) 0) = Some [116; 117]
+  /\ KnownDocMove ex_world (0, 7) (0, 3) = false
+  /\ snd (DomL1.dom_step (abs ex_world) (DomL1.AAppendChild (0, 7) (0, 3))) = DomL1.ADone (DomL1.ANode (0, 3))
+  /\ snd (DomL1.dom_step (abs ex_world) (DomL1.AAppendChild (0, 3) (0, 2))) = DomL1.ARaised (DomL1.Dom DomCharData.HierarchyRequestErr)
   /\ KnownLeafRm ex_world (RemoveChild (0, 3) (0, 6)) = false
   /\ snd (DomL1.dom_step (abs ex_world) (DomL1.ARemoveChild (0, 3) (0, 6))) = DomL1.ADone (DomL1.ANode (0, 6)).
 Proof.
@@ -123,6 +151,9 @@ Proof.
   repeat split; vm_compute; reflexivity.
 Qed.
 
+Print Assumptions C13_step_refines_partial_append.
+Print Assumptions C13_step_refines_partial_insert.
+Print Assumptions C13_step_refines_partial_replace.
 Print Assumptions C13_step_refines_partial_data.
 Print Assumptions C13_step_refines_partial_remove.
 Print Assumptions C13_step_refines_partial_factories.
